@@ -9,6 +9,9 @@ nintendo/nex/{streams,common,errors}.py:
   * walks on ONE object (harness/nexval_walk.py): a StationURL / Structure / DataHolder / stream / DateTime / Result that is
     read, serialised, edited through its public mutators, copied, decoded-into and serialised again must show at every step
     what a freshly built object with the same logical content shows; tied to `ObjWalk.run` / `wSeq` / `rSeq`
+  * polymorphic holders over the whole registry (harness/nexval_holder.py): every class registered with DataHolder by every
+    module of nintendo.nex, with generated field values, alone / in mixed lists / nested, and application-defined class
+    hierarchies (random trees, any subset registered in any order) tied to `HolderPoly.wHolder` / `rHolder`
 """
 import datetime, os, struct, time
 import nintendo.nex.errors as nex_errors
@@ -17,6 +20,7 @@ import logging
 import nexval_gen as G
 import nexval_errors as T
 import nexval_walk as W
+import nexval_holder as H
 
 logging.getLogger("nintendo.nex.common").setLevel(logging.ERROR)   # "version is higher than expected" warnings of Structure.decode
 
@@ -649,6 +653,8 @@ THEOREMS = {
     "dt": ["Nx.C15.datetime_make_fields", "Nx.C15.datetime_unix_partial"],
     "url": ["Nx.C15.stationurl_parse_repr", "Nx.C15.stationurl_stream_roundtrip", "Nx.C15.stationurl_walk_observations", "Nx.C15.stationurl_walk_roundtrip"],
     "seq": ["Nx.C15.stream_sequence_roundtrip", "Nx.C15.stream_sequence_concat"],
+    "poly": ["Nx.C15.holder_poly_roundtrip", "Nx.C15.holder_poly_roundtrip_any_order", "Nx.C15.holder_registry_lookup"],
+    "any": ["Nx.C15.anydata_roundtrip"],
 }
 
 
@@ -664,6 +670,11 @@ def run(ctx):
                 "(model ObjWalk.run, every observation and the final round trip compared with a freshly built url of the same content, failing walks shrunk); several typed values through one "
                 "StreamOut/StreamIn incl. a shared Settings object whose pid size changes (model wSeq/rSeq); DateTime/Result/RMCError accessor sequences; Structure objects and DataHolder "
                 "encoded, edited, decoded-into and re-encoded. "
+                "Polymorphic holders over the whole registry: every module of nintendo.nex is imported and every class it registers with DataHolder gets generated field values "
+                "(its own load methods run on a value-inventing stream, for pid size 4/8, with/without struct header, NEX versions at every threshold used by the library) and goes through "
+                "StreamOut.anydata / StreamIn.anydata alone, in lists and sequences of mixed holders and nested in holder fields: announced name = own class name, same class back, all fields equal, "
+                "exact consumption, identical re-encoding; application-defined hierarchies (random class trees up to 6 classes, any subset registered in any order, fixed Shape<-Circle<-Disc in 8 orders) "
+                "run on the real code and on the model HolderPoly.wHolder/rHolder (driver ops poly.w / poly.r). "
                 "distinct non-trivial = distinct lines whose model result is not a plain rejection of random bytes")
     ctx.assumptions.append("CPython datetime / process time zone (glibc TZ rules for fixed offsets) behave as modelled; compared, not proved")
     ctx.assumptions.append("int(str) is modelled for ASCII digits only; non-ASCII decimal digits and the 4300-digit limit are outside the model")
@@ -671,6 +682,7 @@ def run(ctx):
     entries = check_error_table(ctx, B)
     result_cases(ctx, B, entries, quick)
     stream_cases(ctx, B, quick)
+    H.run(ctx, B, quick)              # first: imports every module of nintendo.nex, so the sections below see the whole registry
     structure_cases(ctx, B, quick)
     datetime_cases(ctx, B, quick)
     url_cases(ctx, B, quick)
